@@ -435,6 +435,7 @@ func (c *Ctx) exec(fr *frame, in ssa.Instruction) {
 	case *ssa.Alloc:
 		t := x.Type().(*types.Pointer).Elem()
 		o := c.newObject(c.zero(t), t, x.Comment)
+		o.allocFn = fr.fn
 		c.set(fr, x, PtrV{obj: o})
 	case *ssa.UnOp:
 		c.set(fr, x, c.unop(fr, x))
